@@ -42,6 +42,8 @@ impl<const ID: usize> Copy for Ctr<ID> {}
 pub fn ctr_reset() { unsafe { CTR = [0; 6]; } }
 pub fn ctr_counts() -> [u8; 6] { unsafe { CTR } }
 
+pub type Off = i64;
+pub type Flt = f64;
 /// newtype reachable from an integer literal only through Into
 #[derive(Clone, Copy, PartialEq, Eq, Debug, Default)]
 pub struct W(pub i32);
@@ -104,6 +106,7 @@ pub mod m {
     #[verifier::external_body]
     pub fn into_c(a: u16) -> (r: u16) ensures r == into_c_spec(a) { unimplemented!() }
 
+    pub type Off = i64;
     pub struct K(pub u64);
     impl core::hash::Hash for K {
         #[verifier::external_body]
